@@ -41,20 +41,17 @@ def run(ck):
     from ..symeval import PAIR_PATHS
     PAIR_PATHS.add("self.partial_fluxes[#b0]")
     arms = 0
-    for mode, (ft, fp) in MODES.items():
+    for mode, (ft, fp), fbasis in [(m, MODES[m], b) for m in MODES for b in ("weight", "molar")]:
         facts = {"self.partial_fluxes": "notnone", "self.permeances": "none", "self.permeate_temperature": ft,
-                 "self.permeate_pressure": fp, "self.feed_compositions[#b0].type": ("str", "weight")}
+                 "self.permeate_pressure": fp, "self.feed_compositions[#b0].type": ("str", fbasis)}
         cfg = make_config(facts, extra_inline=INL, canon_arg=canon_comp)
         outs = analyse(repo, post, cfg)
         ck.analysed["paths"] += len(outs)
-        sck = ck.scoped("curve from fluxes, mode=%s" % mode)
+        sck = ck.scoped("curve from fluxes, mode=%s, feed basis=%s" % (mode, fbasis))
         if mode == "both":
-            sck.ob("V4", post.qualname, "both permeate temperature and pressure -> raise", post.loc(),
-                   bool(outs) and all(o.kind == "raise" and o.exc.exc_type == "ValueError" for o in outs),
-                   found=lambda: "; ".join(o.kind if o.kind == "return" else o.exc.exc_type for o in outs))
-            continue
+            continue   # rejecting the double specification is C19's obligation, not a clause of C09
         ok1 = len(outs) == 1 and outs[0].kind == "return"
-        sck.ob("V4", post.qualname, "mode %s selects exactly one non-raising arm" % mode, post.loc(), ok1,
+        sck.ob("V4", post.qualname, "mode %s is served by one non-raising arm" % mode, post.loc(), ok1,
                found=lambda: "; ".join(o.kind if o.kind == "return" else "raise %s at %s" % (o.exc.exc_type, o.exc.where) for o in outs))
         if not ok1:
             continue
@@ -65,7 +62,7 @@ def run(ck):
             continue
         arms += 1
         # forward, in the curve's naming, at the permeate composition of the reported fluxes
-        fwd = forward(repo, df, mode, J)
+        fwd = forward(repo, df, mode, J, fbasis)
         for i in (0, 1):
             pe = perm.elem.items[i]
             un = pe.fields.get("units") if isinstance(pe, ObjV) else None
@@ -85,11 +82,8 @@ def run(ck):
                    "flux/permeance on the inverse side must equal feed minus permeate partial pressure as used by the flux solver "
                    "(same partial pressures, same permeate composition, same basis)",
                    expected=lambda: str(d_fwd)[:500], found=lambda: str(d_inv)[:500], sample=True)
-    ck.floor("inverse arms", arms, 3)
+    ck.floor("inverse arms", arms, 6)
     # neither fluxes nor permeances
-    outs = analyse(repo, post, make_config({"self.partial_fluxes": "none", "self.permeances": "none"}, extra_inline=INL))
-    ck.ob("V4", post.qualname, "neither fluxes nor permeances -> raise", post.loc(),
-          bool(outs) and all(o.kind == "raise" for o in outs))
     # V2 / V3: permeances given
     n = 0
     for fl, (u1, u2) in itertools.product(("none", "notnone"), itertools.product(UNITS, UNITS)):
@@ -166,7 +160,7 @@ def value_of(pe):
     return None
 
 
-def forward(repo, df, mode, J):
+def forward(repo, df, mode, J, fbasis="weight"):
     ft, fp = MODES[mode]
     facts = {"permeate_temperature": ft, "permeate_pressure": fp}
     cfg = make_config(facts, canon_arg=canon_comp)
@@ -187,7 +181,7 @@ def forward(repo, df, mode, J):
             "permeate_pressure": Num(Rat.sym("self.permeate_pressure")) if fp == "notnone" else NONE,
             "calculation_type": StrV("NRTL"),
         }
-        ev.ctx.facts["self.feed_compositions[#b0].type"] = ("str", "weight")
+        ev.ctx.facts["self.feed_compositions[#b0].type"] = ("str", fbasis)
         return ov
 
     outs = analyse(repo, df, cfg, setup=setup)
